@@ -23,6 +23,7 @@ import (
 	"fmt"
 	"log"
 	"net/http"
+	"sync"
 	"time"
 
 	"context"
@@ -63,6 +64,11 @@ type Connection struct {
 	serverMessages  chan *message
 	protocolVersion int
 	subprotocol     string
+
+	// mu serializes senders on (and the closing of) the clientMessages channel.
+	mu sync.Mutex
+	// closed reports whether the clientMessages channel has been closed.
+	closed bool
 }
 
 // This map defines the set of headers that should be stripped from the WS request, as they
@@ -168,10 +174,22 @@ func NewConnection(ctx context.Context, targetURL string, header http.Header, er
 }
 
 // Close closes the websocket client connection.
+//
+// It is safe to call Close multiple times, and concurrently with SendClientMessage.
 func (conn *Connection) Close() {
-	conn.clientMessages <- &message{
+	conn.mu.Lock()
+	defer conn.mu.Unlock()
+	if conn.closed {
+		return
+	}
+	conn.closed = true
+	select {
+	case conn.clientMessages <- &message{
 		websocket.CloseMessage,
 		websocket.FormatCloseMessage(websocket.CloseNormalClosure, ""),
+	}:
+	case <-conn.done():
+		// The connection is already gone, so nothing is reading the client messages.
 	}
 	// Closing the writing routine.
 	close(conn.clientMessages)
@@ -218,11 +236,20 @@ func (conn *Connection) SendClientMessage(msg interface{}, injectionEnabled bool
 			clientMessage = injectedMsg
 		}
 	}
+	conn.mu.Lock()
+	defer conn.mu.Unlock()
+	if conn.closed {
+		return fmt.Errorf("attempt to send a client message on a closed websocket connection")
+	}
 	select {
 	case <-conn.done():
 		return fmt.Errorf("attempt to send a client message on a closed websocket connection")
 	default:
-		conn.clientMessages <- clientMessage
+	}
+	select {
+	case <-conn.done():
+		return fmt.Errorf("attempt to send a client message on a closed websocket connection")
+	case conn.clientMessages <- clientMessage:
 	}
 	return nil
 }
